@@ -12,6 +12,9 @@ MODULE = r'''
 from guppylang import guppy
 from guppylang.std.builtins import array, owned, result, comptime, nat
 from guppylang.std.quantum import qubit, h, cx, measure, discard
+import guppylang
+guppylang.enable_experimental_features()
+control = object()
 T = guppy.type_var("T")
 
 @guppy.struct
@@ -127,6 +130,25 @@ def twice_mono(x: int) -> int:
     # the enclosing function of a nested definition is monomorphized twice
     return generic_nested(x, 1) + generic_nested(x, 2)
 
+@guppy
+def nested_loops(n: int) -> int:
+    # two pairs of generated temporaries (iterators) alive in the same blocks
+    s = 0
+    for i in range(n):
+        for j in range(n):
+            s += i * j if i > j else 1
+    return s
+
+@guppy
+def tmp_filler(x: int) -> int:
+    # checking this consumes exactly one generated temporary name
+    return 1 if x > 0 else 2
+
+@guppy
+def modified(q: qubit, c: qubit) -> None:
+    with control(c):
+        h(q)
+
 @guppy.comptime
 def bad_traced(n: int) -> int:
     return undefined_thing + n
@@ -143,7 +165,7 @@ def uses_broken_struct(b: BrokenStruct) -> int:
 ORACLE = r'''
 import os, sys, json, re, subprocess, tempfile, importlib.util, shutil, hashlib
 
-TARGETS = ["helper", "loops", "structs", "nested", "quantum", "arrays", "uses_traced", "ident", "shadow_user", "two_nested", "twice_mono"]
+TARGETS = ["helper", "loops", "structs", "nested", "quantum", "arrays", "uses_traced", "ident", "shadow_user", "two_nested", "twice_mono", "nested_loops", "modified"]
 FAILING = ["broken_fn", "uses_broken_struct"]
 
 def load(d):
@@ -156,11 +178,20 @@ def norm(s):
     # numbering of generated names is not significant
     s = re.sub(r"%tmp\d+", "%tmp", s)
     s = re.sub(r"\$\d+", "$", s)
+    s = re.sub(r"DefId\(id=\d+\)", "DefId(id=#)", s)      # generated names of modifier blocks carry the definition counter
     return s
 
 def ser(pkg):
     hg = pkg.modules[0] if hasattr(pkg, "modules") else pkg
-    return norm(hg.to_str())
+    # the module as a whole: nodes, links, metadata (to_str) and the extensions shipped with the package
+    exts = sorted(str(getattr(x, "name", x)) for x in getattr(pkg, "extensions", []))
+    meta = json.dumps(hg[hg.module_root].metadata if hasattr(hg, "module_root") else {}, sort_keys=True, default=str)
+    return norm(hg.to_str()) + "\n|module-metadata:" + norm(meta) + "\n|package-extensions:" + ",".join(exts)
+
+def tmp_counter():
+    """number of the next generated temporary (reading it consumes that one)"""
+    from guppylang_internals.cfg.builder import tmp_vars
+    return int(next(tmp_vars)[4:]) + 1
 
 def act(m, step):
     kind, name = step
@@ -185,6 +216,9 @@ def histories(target):
         [("check", "uses_broken_struct"), ("check", target), ("compile", "broken_fn")],
         [("compile", others[0]), ("check", "broken_fn"), ("compile", target), ("compile", others[-1])],
         [("compile", target), ("compile", "two_nested"), ("compile", target), ("compile", "twice_mono"), ("compile", target), ("compile", "nested"), ("compile", target)],
+        [("compile", "modified")],
+        [("compile", "modified"), ("check", target), ("compile", "modified")],
+        [("check", "tmp_filler")] * 3,
     ]
     return hs
 
@@ -228,6 +262,25 @@ try:
                 a, b = base[t], got
                 i = next((k for k in range(min(len(a), len(b))) if a[k] != b[k]), min(len(a), len(b)))
                 bad = {"target": t, "history": hist, "outcomes": outcomes, "detail": f"HUGR of `{t}` differs from the fresh-session HUGR after history {hist}: ...{a[max(0, i - 60): i + 60]!r} vs ...{b[max(0, i - 60): i + 60]!r}"}
+        # the session-wide counter of generated names at every position around its digit boundaries
+        # (…8|9|10…, …98|99|100…): the counter is advanced by checking `tmp_filler` (one name per check)
+        for boundary in I_.get("boundaries", (10, 100)):
+            for off in range(6, -1, -1):
+                cur = tmp_counter()
+                if cur > boundary - off:
+                    continue
+                hist = [("check", "tmp_filler")] * (boundary - off - cur)
+                for st in hist: act(m, st)
+                try:
+                    got = ser(getattr(m, t).compile_function())
+                except Exception as ex:
+                    got = f"<compile raised {type(ex).__name__}: {str(ex)[:120]}>"
+                n += 1
+                if got != base[t] and bad is None:
+                    a, b = base[t], got
+                    i = next((k for k in range(min(len(a), len(b))) if a[k] != b[k]), min(len(a), len(b)))
+                    bad = {"target": t, "history": f"{boundary - off} generated temporaries issued earlier in the session (checks of `tmp_filler`)",
+                           "detail": f"HUGR of `{t}` compiled when the counter of generated names stands at {boundary - off} differs from the fresh-session HUGR: ...{a[max(0, i - 60): i + 60]!r} vs ...{b[max(0, i - 60): i + 60]!r}"}
         # a failed check must not change later outcomes either
         for f in FAILING:
             r1 = act(m, ("check", f)); r2 = act(m, ("check", f)); n += 1
